@@ -65,8 +65,8 @@ def tree_hash():
     return h.hexdigest()[:24]
 
 
-def run(cmd, cwd=None, timeout=1800, check=True):
-    p = subprocess.run(cmd, cwd=cwd, env=ENV, stdout=subprocess.PIPE, stderr=subprocess.STDOUT, text=True, timeout=timeout)
+def run(cmd, cwd=None, timeout=1800, check=True, env=None):
+    p = subprocess.run(cmd, cwd=cwd, env=env or ENV, stdout=subprocess.PIPE, stderr=subprocess.STDOUT, text=True, timeout=timeout)
     if check and p.returncode != 0:
         raise RuntimeError("command failed: %s\n%s" % (" ".join(cmd), p.stdout[-6000:]))
     return p.stdout
@@ -139,7 +139,9 @@ def prepare_once(selfcheck=False):
             log(out.strip())
             if selfcheck:
                 # the repository's own tests must pass on the instrumented copy with the simulator inactive
-                o = run([GO, "test", "-count=1", "./..."], cwd=sc, check=False)
+                # (the repository's tests leave their temporary directories behind: keep them inside the scratch tree)
+                os.makedirs(os.path.join(sc, "_tmp"), exist_ok=True)
+                o = run([GO, "test", "-count=1", "./..."], cwd=sc, check=False, env=dict(ENV, TMPDIR=os.path.join(sc, "_tmp")))
                 log(o[-3000:])
                 if "FAIL" in o:
                     raise RuntimeError("repository tests fail on the instrumented copy")
